@@ -291,6 +291,8 @@ type failKind struct{ name, bad string }
 var failKinds = []failKind{
 	{"branch-mismatch", `{{if .S}}<a {{end}}x`},
 	{"range-reentry", `{{range .L}}<a title="{{end}}`},
+	{"range-reentry-url-prefix", `<a href="{{range .L}}{{.}}:{{end}}">x</a>`},
+	{"range-reentry-url-prefix-2", `<a href="{{range .L}}{{.}}ava{{end}}">x</a>`},
 	{"nontext-end", `<a href="`},
 	{"action-in-tag-name", `<a{{.S}}>`},
 	{"unquoted-attr", `<a title={{.S}}>`},
